@@ -1,8 +1,14 @@
 #!/bin/bash
-# run every thorough tier once; print one summary line per property
+# run every thorough tier once; print one summary line per property;
+# exit 1 if any of them reported a violation or failed
+bad=0
 for i in 19 20 18 14 11 16 15 12 09 05 06 02 03 04 10 13 17 07 08 01; do
   s=$(date +%s)
-  out=$(VERIF_NO_EVIDENCE=${VERIF_NO_EVIDENCE:-} /venv/bin/python mc/run.py --property C$i --tier thorough 2>&1 | grep -v "^  \[\|KNOWN-FINDING" | tail -4)
+  out=$(VERIF_NO_EVIDENCE=${VERIF_NO_EVIDENCE:-} /venv/bin/python mc/run.py --property C$i --tier thorough 2>&1; echo "rc=$?")
   e=$(date +%s)
-  echo "=== C$i thorough $((e-s))s"; echo "$out" | cut -c1-300
+  echo "=== C$i thorough $((e-s))s"
+  echo "$out" | grep -v "^  \[\|KNOWN-FINDING" | tail -5 | cut -c1-300
+  echo "$out" | grep -q "^rc=0$" || { bad=1; echo "!!! C$i FAILED"; }
 done
+[ $bad = 0 ] && echo "ALL-THOROUGH-CLEAN" || echo "SOME-THOROUGH-FAILED"
+exit $bad
